@@ -10,6 +10,8 @@
 (*   "nomatch"      a configured match string is absent from the golden    *)
 (*                  output, before any minimisation         status 1       *)
 (*   "interrupted"  SIGINT, one-line message                status 1       *)
+(*   "noexec"       the command cannot be executed at all,  status 1       *)
+(*                  one-line diagnostic at the golden run                  *)
 (* An internal error (uncaught traceback) is NOT a state of the            *)
 (* specification: a run showing one is rejected.                           *)
 (* The module is a generator: TLC enumerates every situation of the usage  *)
@@ -33,19 +35,34 @@ Faults == {"none", "input-missing", "input-is-directory", "command-missing",
            "golden-timeout-match-err",
            \* some candidates make the command print bytes that are not text:
            \* the failing checks cost only their candidates
-           "undecodable-output"}
+           "undecodable-output",
+           \* the command prints bytes that are not text on EVERY input, the
+           \* golden run included: a command like any other
+           "golden-output-not-text",
+           \* further usage errors: a job count below one, a cross-check
+           \* command that does not exist / is not executable
+           "jobs-zero", "jobs-negative", "cross-check-missing",
+           "cross-check-not-executable",
+           \* the command is an executable file the system cannot run (no
+           \* interpreter line): it surfaces at the first execution
+           "command-exec-format", "cross-check-exec-format"}
 
 FaultPhase(f) ==
   CASE f \in {"input-missing", "input-is-directory", "command-missing",
-              "command-not-a-file", "command-not-executable"} -> "options"
+              "command-not-a-file", "command-not-executable",
+              "jobs-zero", "jobs-negative", "cross-check-missing",
+              "cross-check-not-executable"} -> "options"
     [] f \in {"match-out-absent", "match-err-absent",
               "match-both-out-absent", "match-both-err-absent",
-              "golden-timeout-match-out", "golden-timeout-match-err"} -> "golden"
+              "golden-timeout-match-out", "golden-timeout-match-err",
+              "command-exec-format", "cross-check-exec-format"} -> "golden"
     [] f = "interrupt" -> "reduce"
     [] OTHER -> "report"
 
 Outcome(f) ==
-  CASE f \in {"none", "golden-timeout", "undecodable-output"} -> "completed"
+  CASE f \in {"none", "golden-timeout", "undecodable-output",
+              "golden-output-not-text"} -> "completed"
+    [] f \in {"command-exec-format", "cross-check-exec-format"} -> "noexec"
     [] f \in {"match-out-absent", "match-err-absent",
               "match-both-out-absent", "match-both-err-absent",
               "golden-timeout-match-out", "golden-timeout-match-err"} -> "nomatch"
@@ -94,4 +111,6 @@ StatusZeroIffCompleted == done => (status = 0 <=> phase = "report")
 NoMinimisationAfterNoMatch ==
   (done /\ outcome = "nomatch") => Idx(phase) < Idx("reduce")
 UsageBeforeAnyRun == (done /\ outcome = "usage") => Idx(phase) < Idx("golden")
+NoExecBeforeMinimisation ==
+  (done /\ outcome = "noexec") => Idx(phase) < Idx("reduce")
 =============================================================================
